@@ -206,10 +206,30 @@ def _is_arr(o):
     return cls.__name__ in ("ndarray", "SymArray", "Quantity", "Q_")
 
 
+_UFUNC_UNARY = {"log": "LOG", "exp": "EXP", "sqrt": "SQRT", "sin": "SIN", "cos": "COS"}
+
+
 class SN:
     """symbolic number (z3 Int or Real term)"""
     __slots__ = ("e",)
-    __array_ufunc__ = None
+
+    def __array_ufunc__(self, ufunc, method, *inputs, **kwargs):
+        """real numpy ufuncs applied to a bare symbolic scalar (np.log(x), np.exp(x) ...) inside real functions that are
+        executed without the numpy shim; anything involving real ndarrays is deferred to the reflected operators"""
+        if method != "__call__" or kwargs.get("out") is not None:
+            return NotImplemented
+        if any(type(i).__name__ == "ndarray" for i in inputs):
+            return NotImplemented
+        nm = ufunc.__name__
+        if nm in _UFUNC_UNARY and len(inputs) == 1:
+            return uf(_UFUNC_UNARY[nm], inputs[0])
+        ops = {"add": lambda a, b: a + b, "subtract": lambda a, b: a - b, "multiply": lambda a, b: a * b, "true_divide": lambda a, b: a / b,
+               "divide": lambda a, b: a / b, "negative": lambda a: -a, "absolute": lambda a: abs(a), "power": lambda a, b: a ** b,
+               "less": lambda a, b: a < b, "greater": lambda a, b: a > b, "less_equal": lambda a, b: a <= b, "greater_equal": lambda a, b: a >= b}
+        if nm in ops:
+            ins = [i if isinstance(i, (SN, SB)) else (SN(lift(i)) if not isinstance(i, bool) else i) for i in inputs]
+            return ops[nm](*ins)
+        return NotImplemented
 
     def __init__(self, e):
         self.e = e
